@@ -290,6 +290,7 @@ def run(chk):
     prog = flow.Program(lib)
     m = [x for x in lib if x.unit == fib.UNIT][0]
     K = fib.Kernel(m)
+    fib.check_no_queue_surgery(m, K)
     check_i1(chk, lib, prog)
     check_i2(chk, m, K)
     check_i3(chk, m, K)
